@@ -222,6 +222,23 @@ func (c *Chain) Exec(o Op) (string, string) {
 	case "END":
 		r, _ := c.EndBlock() // the caller commits after observing the state
 		return r, ""
+	case "BFEE":
+		// the bet module's UpdateParams under the governance authority: the stored parameters with a new wager fee
+		ctx, write := c.Ctx().CacheContext()
+		p := c.App.BetKeeper.GetParams(ctx)
+		p.Constraints.Fee = sdkmath.NewIntFromBigInt(o.Amount)
+		msg := &bettypes.MsgUpdateParams{Authority: authtypes.NewModuleAddress(govtypes.ModuleName).String(), Params: p}
+		h := c.App.MsgServiceRouter().Handler(msg)
+		if h == nil {
+			return "err", "no handler"
+		}
+		if _, err := h(ctx, msg); err != nil {
+			return "err", err.Error()
+		}
+		if !c.SimOnly {
+			write()
+		}
+		return "ok", ""
 	case "SPRM":
 		// a parameter update is a governance action, not a user transaction: the module's own handler, under the governance authority,
 		// on the state of the block being executed
